@@ -158,13 +158,32 @@ def placeholder_term(k, sig, dim):
     raise ValueError(sig)
 
 
+# In dimension 1 a vector or matrix value may be lowered to a bare scalar (sig 's'), to a derivative
+# node (sig 'd') or to a 1x1 matrix (which `sigOf` reads as a column, sig 'v'): every combination of
+# these that the dispatcher can produce for a well-typed expression gets its theorem (used by the
+# structural induction `lower_sound`, Props/C01.lean).
+ONE_D_1 = {'Grad': 'sdv', 'Div': 'sdv', 'Laplace': 'sdv', 'Hessian': 'sd'}
+ONE_D_2 = {'Dot': 'sdv', 'Inner': 'sdv'}
+
+
+def covered(op, n, sigs, dim):
+    table = WELL_TYPED_1 if n == 1 and op in WELL_TYPED_1 else WELL_TYPED_2 if op in WELL_TYPED_2 else None
+    if table is not None and op in table and sigs in table[op]:
+        return True
+    if dim == 1 and n == 1 and op in ONE_D_1:
+        return sigs in ONE_D_1[op]
+    if dim == 1 and n == 2 and op in ONE_D_2:
+        return all(c in ONE_D_2[op] for c in sigs)
+    return False
+
+
 def theorems(es):
     """one Lean theorem per well-typed table entry: the formula equals the classical definition"""
     out = []
     for cname, sigs, dim, logical, n, outc in es:
         op = cname.replace('Logical', '').rsplit('_', 1)[0]
         table = WELL_TYPED_1 if n == 1 and op in WELL_TYPED_1 else WELL_TYPED_2 if op in WELL_TYPED_2 else None
-        if table is None or op not in table or sigs not in table[op]:
+        if not covered(op, n, sigs, dim):
             continue
         if outc[0] != 'ok':
             continue          # (an entry that raises is a failure of "does not fail on the fragment": see below)
@@ -172,7 +191,7 @@ def theorems(es):
             continue
         if op in ('Rot', 'Bracket') and dim != 2:
             continue
-        rank = table[op][sigs]
+        rank = table[op].get(sigs, 0) if dim == 1 else table[op][sigs]     # 1D: every value has the single component (0,0)
         if rank is None:
             rank = 1 if dim == 3 else 0
         if dim == 1 and op == 'Grad' and sigs in ('s', 'd'):
@@ -184,7 +203,7 @@ def theorems(es):
         args = ' '.join(placeholder_term(k, s, dim) for k, s in enumerate(sigs))
         node = '(.op1 .%s %s)' % (OP1[op], args) if n == 1 else '(.op2 .%s %s)' % (OP2[op], args)
         ident = '%s_%s' % (cname, sigs)
-        out.append((ident, dim, logical, ri, rj, node))
+        out.append((ident, dim, logical, ri, rj, node, cname, sigs))
     return out
 
 
@@ -257,11 +276,36 @@ def generate(ctx=None):
           'variable {K : Type} [CommRing K] [Algebra ℚ K]',
           '']
     tl = theorems(es)
-    for ident, dim, logical, ri, rj, node in tl:
+    for ident, dim, logical, ri, rj, node, cname, sigs in tl:
         th.append('theorem leaf_%s (S : DRing K) (i j : Nat) (hi : i < %d) (hj : j < %d) :' % (ident, ri, rj))
         th.append('    den S %s i j = denG S %d %s %s i j := by' % (ident, dim, 'true' if logical else 'false', node))
         th.append('  leaf_tac %s i j' % ident)
         th.append('')
+    # ---- the same theorems in one uniform statement, indexed by (class, signature): what the
+    #      structural induction over the dispatcher (Lemmas/LowerMain.lean) consumes
+    th.append('/-- a table entry covered by a theorem: class, signature, dimension, logical?, the generic node applied to')
+    th.append('    placeholder arguments, the formula of the entry, the number of rows and columns of the result -/')
+    th.append('structure LeafEntry where')
+    th.append('  cname : String')
+    th.append('  sigs : String')
+    th.append('  dim : Nat')
+    th.append('  lg : Bool')
+    th.append('  node : E')
+    th.append('  F : E')
+    th.append('  ri : Nat')
+    th.append('  rj : Nat')
+    th.append('')
+    th.append('def leafIndex : List LeafEntry := [')
+    th.append(',\n'.join('  ⟨"%s", "%s", %d, %s, %s, %s, %d, %d⟩' % (cname, sigs, dim, 'true' if logical else 'false', node, ident, ri, rj)
+                         for ident, dim, logical, ri, rj, node, cname, sigs in tl))
+    th.append(']')
+    th.append('')
+    th.append('/-- every indexed formula equals the classical definition of its node, in every differential ring -/')
+    th.append('theorem leaf_index (S : DRing K) : ∀ r ∈ leafIndex, ∀ i j, i < r.ri → j < r.rj →')
+    th.append('    den S r.F i j = denG S r.dim r.lg r.node i j := by')
+    th.append('  simp only [leafIndex, List.forall_mem_cons]')
+    th.append('  exact ⟨' + ',\n    '.join('leaf_%s S' % t[0] for t in tl) + ',\n    fun _ h => absurd h List.not_mem_nil⟩')
+    th.append('')
     have = {(c, sg) for c, sg, _, _, _, o in es if o[0] == 'ok'}
     missing = [x for x in expected_entries() if x not in have]
     th.append('/-- entries of the supported fragment for which the current code returns no formula (raises, or the')
